@@ -312,8 +312,9 @@ def mon_argv_env(sc, r):
                    "CARGO_PKG_VERSION": "0.3.1" if t["pkg"] == "alpha" else "1.2.0", "CARGO_MANIFEST_DIR": pkgdir}
         for k, v in wantenv.items():
             if env.get(k) != v: out.append(viol(sc, r, "env", f"test {t['name']!r}: {k}={env.get(k)!r}, expected {v!r}"))
+        if env.get("VT_FROM_CONFIG") != "cfg": out.append(viol(sc, r, "env", f"test {t['name']!r}: cargo config [env] VT_FROM_CONFIG={env.get('VT_FROM_CONFIG')!r}, expected 'cfg'"))
         rid = env.get("NEXTEST_RUN_ID")
-        if not rid or rid == "evil-inherited": out.append(viol(sc, r, "env", f"test {t['name']!r}: NEXTEST_RUN_ID={rid!r} (inherited value not overridden)"))
+        if not rid or rid in ("evil-inherited", "evil-config"): out.append(viol(sc, r, "env", f"test {t['name']!r}: NEXTEST_RUN_ID={rid!r} (inherited value not overridden)"))
         run_ids.add(rid)
     if len(run_ids) > 1: out.append(viol(sc, r, "env", f"NEXTEST_RUN_ID differs between processes of one run: {sorted(run_ids)}"))
     return out
